@@ -990,6 +990,36 @@ ORDER_BASES = [
 ]
 PATTERN_ORDERS = ("identity", "reversed", "column_major", "swap_first_two", "rotated_by_one", "interleaved")
 PROBE_PARAM_KEYS = ("energy", "defocus", "semiangle_cutoff")
+# (c) NEARLY-EQUAL thicknesses: sequences whose members all lie within a relative spread `rel` of each other but are not
+# identical -- "arbitrary thicknesses" includes those, and every gap must be propagated over ITS thickness.  Each spread comes
+# with a thickness scale [A] large enough that using one common thickness instead would be far outside the tolerances at the
+# check's energy (300 kV) and sampling: NEAR_MIN_SENSITIVITY is verified at run time with the independent simulator (data
+# simulated with the first / the last member for every gap, judged like a library prediction: the best l2 loss must exceed its
+# zero-tolerance by that factor), Broken otherwise.  The smallest spread is 5e-6: float32 rounding of the propagator phase is
+# ~1.3e-7 relative, so a 1e-6 spread is only ~7x (losses: ~30x) above the rounding floor of a correct single-precision
+# implementation and cannot be told apart from it with a 20x margin on either side; 5e-6 still lies inside the default
+# relative tolerance (1e-5) of the usual approximate-equality tests.  Absolute differences range from 0.3 A to 4 A.
+NEAR_EQUAL_SPREADS = ((5e-6, 60000.0), (1e-4, 5000.0), (1e-3, 1000.0), (5e-3, 200.0), (9e-3, 200.0), (2e-2, 200.0))  # (relative spread, scale [A])
+NEAR_EQUAL_ORDERS = {3: ("ascending", "descending"), 4: ("ascending", "descending", "odd_first", "odd_middle", "odd_last")}
+NEAR_MIN_SENSITIVITY = 20.0
+# propagators read through the public property vs the simulator's per-gap ones: max |difference| <= NEAR_PROP_TOL[0] * (largest
+# propagator phase [rad]) + NEAR_PROP_TOL[1].  Observed on the unchanged tree: 1.3e-7 x phase (float32 phase rounding; 620 rad
+# for the 60000 A member), i.e. 8x below the bound | one common thickness: >= 5e-6 x phase, >= 5x the bound (>= 100x from 1e-4 on)
+NEAR_PROP_TOL = (1e-6, 1e-6)
+
+
+def near_equal_sequence(S, rel, scale, order):
+    """S-1 thicknesses within a relative spread `rel` of each other, none of the distinct values equal."""
+    lo, hi = float(scale), float(scale) * (1.0 + float(rel))
+    n = S - 1
+    if order in ("ascending", "descending"):
+        seq = [lo + (hi - lo) * i / (n - 1) for i in range(n)]
+        seq = seq if order == "ascending" else seq[::-1]
+    else:
+        k = {"odd_first": 0, "odd_middle": n // 2, "odd_last": n - 1}[order]
+        seq = [hi if i == k else lo for i in range(n)]
+    # single-precision representable values: the library keeps thicknesses in float32, and what it is handed is what it reports
+    return [float(np.float32(v)) for v in seq]
 
 
 def pattern_permutation(name, scan):
@@ -1031,6 +1061,14 @@ def order_items(tier, start):
                         conts = ("list",)
                     for cont in conts:
                         add(kind="slice_thicknesses", base=b, slices=S, sequence=name, route=route, container=cont)
+        for S, orders in NEAR_EQUAL_ORDERS.items():
+            for rel, scale in NEAR_EQUAL_SPREADS:
+                for order in orders:
+                    for route in THICKNESS_ROUTES:
+                        # quick: every (slices, spread, order) at construction on the first base; the three other routes for
+                        # every spread with the odd-one-out in the middle on the second base.  thorough: the full product
+                        if tier != "quick" or (b == 0 and route == "construction") or (b == 1 and route != "construction" and order == "odd_middle"):
+                            add(kind="nearly_equal_thicknesses", base=b, slices=S, rel=rel, scale=scale, order=order, route=route, container="list")
         for name in PATTERN_ORDERS:
             for S in (1, 3):
                 add(kind="pattern_order", base=b, slices=S, order=name)
@@ -1046,8 +1084,10 @@ def run_order_case(item, seed=0):
     kind = item["kind"]
     fails, seen = [], set()
 
+    near = kind == "nearly_equal_thicknesses"
+
     def fail(what, msg):
-        cls = {"relation": "ordered_configuration_is_used_in_order", "sequence": kind, "what": what}
+        cls = {"relation": "nearly_equal_thicknesses_are_used_as_given" if near else "ordered_configuration_is_used_in_order", "sequence": kind, "what": what}
         k = json.dumps(cls, sort_keys=True)
         if k not in seen:
             seen.add(k)
@@ -1057,6 +1097,9 @@ def run_order_case(item, seed=0):
     S = item["slices"]
     default_T = [60.0 + 30.0 * s for s in range(S - 1)]
     T = list(THICKNESS_SEQUENCES[S][item["sequence"]]) if kind == "slice_thicknesses" else default_T
+    if near:
+        T = near_equal_sequence(S, item["rel"], item["scale"], item["order"])
+        kind = "slice_thicknesses"  # installed and judged exactly like any other thickness sequence, plus what `near` adds
     cfgT = dict(base, thicknesses=T)
     if kind == "probe_params_key_order":
         cfgT["probe_params_order"] = item["order"]
@@ -1072,6 +1115,18 @@ def run_order_case(item, seed=0):
         gsim = PT.reorder_patterns(geo, perm)
     data = PT.simulate(obj, probe, gsim, c)  # the sequence in slice order, the patterns in the order they are fed in
     what = f"{item}"
+    commons = {}
+    if near:
+        # is this member worth anything?  one common thickness (the first / the last member) in every gap, judged like a prediction
+        nullL = {lt: PT.ref_loss(np.zeros_like(data), data, lt, J, float(data.sum() / J)) for lt in PT.LOSS_TYPES}
+        sens = []
+        for tag, tc in (("first", T[0]), ("last", T[-1])):
+            commons[tag] = PT.simulate(obj, probe, geo, PT.normalise(dict(base, thicknesses=[tc] * (S - 1))))
+            sens.append(max(PT.ref_loss(commons[tag], data, lt, J, float(data.sum() / J)) / nullL[lt] / TOL["zero"][lt] for lt in ("l2_amplitude", "l2_intensity")))
+        rec["sensitivity"] = min(sens)
+        if not (min(sens) >= NEAR_MIN_SENSITIVITY and len(set(T)) > 1 and len(set(np.float32(T).tolist())) == len(set(T)) and max(T) / min(T) - 1 <= item["rel"] * 1.02):
+            raise Broken(f"nearly-equal thickness member {item} (thicknesses {T}) is too insensitive: one common thickness gives an l2 loss of only "
+                         f"{min(sens):.3g} x the zero-tolerance (need {NEAR_MIN_SENSITIVITY:g} x)")
     stage = "build"
     try:
         if kind == "slice_thicknesses" and item["route"] != "construction":
@@ -1101,6 +1156,24 @@ def run_order_case(item, seed=0):
             got = [float(v) for v in np.asarray(pr.ptycho.slice_thicknesses).ravel()]
             if len(got) != len(T) or max(abs(g - t) for g, t in zip(got, T)) > 1e-3:
                 fail("reported_sequence", f"{what}: ptycho.slice_thicknesses reports {got}, installed {T}")
+        if near:
+            # the propagators the library exposes are the simulator's, gap by gap
+            P = pr.ptycho.propagators.detach().cpu().numpy()
+            lam = PT.wavelength(c["energy"])
+            Ps = np.array([PT.propagator(geo.roi, geo.sampling, lam, dz) for dz in T])
+            kmax2 = float((np.fft.fftfreq(int(geo.roi[0]), geo.sampling[0]) ** 2).max() + (np.fft.fftfreq(int(geo.roi[1]), geo.sampling[1]) ** 2).max())
+            ptol = NEAR_PROP_TOL[0] * np.pi * lam * max(T) * kmax2 + NEAR_PROP_TOL[1]
+            if P.shape != Ps.shape:
+                fail("propagators", f"{what}, thicknesses {T}: ptycho.propagators has shape {P.shape}, expected {Ps.shape}")
+            else:
+                perr = np.abs(P - Ps).reshape(S - 1, -1).max(1)
+                rec["propagator_err_over_tol"] = float(perr.max() / ptol)
+                if not perr.max() <= ptol:
+                    g = int(perr.argmax())
+                    same = [i for i in range(S - 1) if i != g and T[i] != T[g] and np.array_equal(P[i], P[g])]
+                    fail("propagators", f"{what}, thicknesses {T}: ptycho.propagators[{g}] (gap of {T[g]!r} A) differs from exp(-i pi lambda dz k^2) by {perr[g]:.3g} "
+                         f"(tolerance {ptol:.3g}; per gap {[float(f'{v:.3g}') for v in perr]})"
+                         + (f"; it is identical to the propagator of gap {same[0]} ({T[same[0]]!r} A)" if same else ""))
         full, half = np.arange(J), np.arange(max(1, J // 2))
         mean_I = float(data.sum() / J)
         preds = None
@@ -1122,7 +1195,12 @@ def run_order_case(item, seed=0):
                     rec["pred_rel"] = max(rec.get("pred_rel", 0.0), d)
                     if not d <= TOL["pred_rel"]:
                         hint = ""
-                        if kind == "slice_thicknesses":  # does the prediction belong to a re-ordered sequence?
+                        if near:  # does the prediction belong to ONE common thickness?
+                            for tag, sq in commons.items():
+                                if np.abs(pn - sq[idx]).max() / sq.max() <= TOL["pred_rel"]:
+                                    hint = f"; it equals the simulator with the {tag} thickness ({T[0] if tag == 'first' else T[-1]!r} A) used for every gap"
+                                    break
+                        if kind == "slice_thicknesses" and not hint:  # does the prediction belong to a re-ordered sequence?
                             for q in sorted(set(itertools.permutations(T))):
                                 if list(q) != T:
                                     sq = PT.simulate(obj, probe, geo, PT.normalise(dict(base, thicknesses=list(q))))
@@ -1163,8 +1241,13 @@ def check_order(item, seed=0):
     t = Tally()
     rec, fails = run_order_case(item, seed=seed)
     key = {k: v for k, v in item.items() if k != "index"}
-    t.case(key=key, nontrivial=True, outcome=(item["kind"], item["slices"], item.get("sequence"), item.get("order") if isinstance(item.get("order"), str) else None))
+    t.case(key=key, nontrivial=True, outcome=(item["kind"], item["slices"], item.get("sequence"), item.get("order") if isinstance(item.get("order"), str) else None, item.get("rel")))
     t.extra["order_cases_" + item["kind"]] += 1
+    if item["kind"] == "nearly_equal_thicknesses":
+        t.stat("nearly_equal_one_over_sensitivity", 1.0 / max(rec.get("sensitivity", 0.0), 1e-30))
+        t.stat("nearly_equal_propagator_error_over_tolerance", rec.get("propagator_err_over_tol", float("nan")))
+        t.stat("nearly_equal_prediction_error_over_tolerance", rec.get("pred_rel", float("nan")) / TOL["pred_rel"])
+        t.stat("nearly_equal_l2_zero_ratio_over_tolerance", max((rec.get("zero") or {}).get(lt, float("nan")) / TOL["zero"][lt] for lt in ("l2_amplitude", "l2_intensity")))
     if item["kind"] == "slice_thicknesses":
         T = THICKNESS_SEQUENCES[item["slices"]][item["sequence"]]
         t.extra["thickness_cases_distinct_values_not_ascending"] += int(len(set(T)) == len(T) and list(T) != sorted(T))
@@ -1441,8 +1524,16 @@ def run(ctx):
                                "routes": list(THICKNESS_ROUTES), "containers": list(PT.THICKNESS_CONTAINERS), "pattern_orders": list(PATTERN_ORDERS),
                                "probe_params_key_orders": 6, "base_configurations": ORDER_BASES, "cases": len(oitems),
                                "thickness_cases_distinct_values_not_ascending": int(om.extra["thickness_cases_distinct_values_not_ascending"]),
-                               "thickness_cases_with_repeated_values": int(om.extra["thickness_cases_with_repeated_values"])},
+                               "thickness_cases_with_repeated_values": int(om.extra["thickness_cases_with_repeated_values"]),
+                               "nearly_equal_thicknesses": {"relative_spread_and_scale_A": [list(v) for v in NEAR_EQUAL_SPREADS], "orders": {str(k): list(v) for k, v in NEAR_EQUAL_ORDERS.items()},
+                                                            "routes": list(THICKNESS_ROUTES), "cases": int(om.extra["order_cases_nearly_equal_thicknesses"]),
+                                                            "required_sensitivity_x_l2_zero_tolerance": NEAR_MIN_SENSITIVITY,
+                                                            "smallest_sensitivity": 1.0 / om.maxima["nearly_equal_one_over_sensitivity"] if om.maxima.get("nearly_equal_one_over_sensitivity") else None,
+                                                            "propagator_tolerance": {"per_rad_of_largest_phase": NEAR_PROP_TOL[0], "absolute": NEAR_PROP_TOL[1]},
+                                                            "worst_over_tolerance": {k: v for k, v in om.maxima.items() if k.startswith("nearly_equal_") and k.endswith("over_tolerance")}}},
     )
+    if om.extra["order_cases_nearly_equal_thicknesses"] < len(NEAR_EQUAL_SPREADS) * (sum(len(v) for v in NEAR_EQUAL_ORDERS.values()) + len(THICKNESS_ROUTES) - 1):
+        raise Broken("vacuous nearly-equal thickness exploration")
     if om.extra["thickness_cases_distinct_values_not_ascending"] < 20 or om.extra["order_cases_pattern_order"] < 10:
         raise Broken("vacuous ordered-configuration exploration")
     citems = copy_items(ctx.tier, start=len(hitems) + len(ritems) + len(oitems))
